@@ -90,6 +90,106 @@ def self_attrs(node, self_):
     return {n.attr for n in ast.walk(node) if isinstance(n, ast.Attribute) and isinstance(n.value, ast.Name) and n.value.id == self_}
 
 
+def seed_rules(an: Analysis, rep):
+    """What both directions put into a table before the first instruction is looked at (docstring slot, parameter slots) agrees."""
+    f, ifst, assign, mapattr, idx = find_rank_site(an)
+    # seeds: docstring guard equal on both sides
+    it_dec, ret_dec = an.interp("from_code")
+    enc_seeds = [g for g in find_docstring_guards(an) if g["kind"] == "seed"]
+    dec_seed = None
+    for g in an.closure("from_code"):
+        for st in ast.walk(g.node):
+            if (isinstance(st, ast.Expr) and isinstance(st.value, ast.Call) and isinstance(st.value.func, ast.Attribute)
+                    and st.value.func.attr == f.name and len(st.value.args) == 1 and isinstance(st.value.args[0], ast.Constant)
+                    and st.value.args[0].value == 0):
+                dec_seed = (g, st)
+    if dec_seed is None or not enc_seeds:
+        raise AnalysisError("docstring seeding sites not found on both sides")
+    g, st = dec_seed
+    dtest = inline_locals(g.node, conj(guards_of(g.module, g, st)))
+    names = {n.id for n in ast.walk(dtest) if isinstance(n, ast.Name)} & set(g.params)
+    blockp = [n for n in names]
+    es = enc_seeds[0]
+
+    def isinst(o, c):
+        cs = c if isinstance(c, tuple) else (c,)
+        return any(isinstance(o, _O) and o.cls == x for x in cs)
+
+    diffs = []
+    for bt in [None, _O("Function", docstring=None), _O("Function", docstring=""), _O("Function", docstring="doc")]:
+        envd = {c.name: c.name for c in an.prog.all_classes()}
+        envd.update({"isinstance": isinst})
+        enve = dict(envd)
+        for p in blockp:
+            envd[p] = bt
+        enve[es["block"]] = bt
+        enve[es["table"]] = ()
+        try:
+            d = bool(feval(dtest, envd))
+            e = bool(feval(es["test"], enve))
+        except (FevalError, KeyError, TypeError, AttributeError) as ex:
+            if bt is None:
+                continue
+            raise AnalysisError(f"seed guards not evaluable: {ex}")
+        if d != e:
+            diffs.append(f"block={bt and dict(bt)}: decoder seeds={d}, encoder seeds={e}")
+    rep.add("R09.2", "docstring seed guards agree", not diffs, loc(g.module, st),
+            "; ".join(diffs) if diffs else f"decoder guard {norm_src(dtest)} == encoder guard {norm_src(es['test'])} on every block type")
+    # varnames seeds: the decoder pre-marks as many leading slots as the encoder pre-assigns (same multiset of Args fields)
+    from . import c04
+    dec_fields = enc_fields = None
+    dec_where = loc(f.module, f.node)
+    for g2 in an.closure("from_code"):
+        for n in ast.walk(g2.node):
+            if isinstance(n, ast.DictComp) and isinstance(n.key, ast.Name) and isinstance(n.value, ast.Name) and n.key.id == n.value.id:
+                itx = n.generators[0].iter
+                if isinstance(itx, ast.Call) and isinstance(itx.func, ast.Name) and itx.func.id == "range" and len(itx.args) == 1:
+                    from .encode_model import inline_reaching
+                    cnt = inline_reaching(g2.node, n, inline_locals(g2.node, itx.args[0]))
+                    # a sum of len(<expression over the Args value>) terms
+                    terms, todo, okshape = [], [cnt], True
+                    while todo:
+                        x = todo.pop()
+                        if isinstance(x, ast.BinOp) and isinstance(x.op, ast.Add):
+                            todo += [x.right, x.left]
+                        elif isinstance(x, ast.Call) and isinstance(x.func, ast.Name) and x.func.id == "len" and len(x.args) == 1:
+                            terms.append(x.args[0])
+                        else:
+                            okshape = False
+                    if not okshape or not terms:
+                        continue
+                    fl_all = []
+                    for src in terms:
+                        base = None
+                        for a in ast.walk(src):
+                            if isinstance(a, ast.Name) and a.id in g2.params:
+                                base = a
+                        if base is None:
+                            fl_all = None
+                            break
+                        fl_all += [fl for fl, k, o in c04.segments(an, g2, src, base.id)]
+                    if fl_all is not None:
+                        dec_fields = sorted(fl_all)
+                        dec_where = loc(g2.module, n)
+    for g2 in an.closure("to_code"):
+        for n in ast.walk(g2.node):
+            if isinstance(n, ast.For) and isinstance(n.iter, ast.Call) and isinstance(n.iter.func, ast.Name) and n.iter.func.id == "enumerate" \
+                    and len(n.body) == 1 and isinstance(n.body[0], ast.Assign) and isinstance(n.body[0].targets[0], ast.Subscript):
+                src = n.iter.args[0]
+                base = None
+                for a in ast.walk(src):
+                    if isinstance(a, ast.Attribute) and a.attr == "args":
+                        base = a
+                if base is not None:
+                    enc_fields = sorted(c04._order_from_args_expr(an, g2, src, base))
+    if dec_fields is None or enc_fields is None:
+        raise AnalysisError("parameter seeding sites not recognised on both sides")
+    rep.add("R09.2", "parameter seeds cover the same slots on both sides", dec_fields == enc_fields, dec_where,
+            f"decoder pre-marks len({dec_fields}) leading local slots, the encoder pre-assigns exactly those" if dec_fields == enc_fields
+            else f"decoder pre-marks the slots of {dec_fields}, encoder pre-assigns {enc_fields}")
+
+
+
 def run(an: Analysis, rep):
     rep.explanation = (
         "Decides that the decoder's first-use rank is a function of discovery state (the number of distinct indices met so far - the "
@@ -188,82 +288,7 @@ def run(an: Analysis, rep):
     rep.add("R09.1", f"{f.qual}::override iff rank != index", not bad, loc(f.module, rets[0]),
             (f"{len(bad)} of {n_eval} domain points wrong, e.g. {bad[0]}") if bad else f"override == (index if rank != index else None) on all {n_eval} (index, rank) points")
 
-    # seeds: docstring guard equal on both sides
-    it_dec, ret_dec = an.interp("from_code")
-    enc_seeds = [g for g in find_docstring_guards(an) if g["kind"] == "seed"]
-    dec_seed = None
-    for g in an.closure("from_code"):
-        for st in ast.walk(g.node):
-            if (isinstance(st, ast.Expr) and isinstance(st.value, ast.Call) and isinstance(st.value.func, ast.Attribute)
-                    and st.value.func.attr == f.name and len(st.value.args) == 1 and isinstance(st.value.args[0], ast.Constant)
-                    and st.value.args[0].value == 0):
-                dec_seed = (g, st)
-    if dec_seed is None or not enc_seeds:
-        raise AnalysisError("docstring seeding sites not found on both sides")
-    g, st = dec_seed
-    dtest = inline_locals(g.node, conj(guards_of(g.module, g, st)))
-    names = {n.id for n in ast.walk(dtest) if isinstance(n, ast.Name)} & set(g.params)
-    blockp = [n for n in names]
-    es = enc_seeds[0]
-
-    def isinst(o, c):
-        cs = c if isinstance(c, tuple) else (c,)
-        return any(isinstance(o, _O) and o.cls == x for x in cs)
-
-    diffs = []
-    for bt in [None, _O("Function", docstring=None), _O("Function", docstring=""), _O("Function", docstring="doc")]:
-        envd = {c.name: c.name for c in an.prog.all_classes()}
-        envd.update({"isinstance": isinst})
-        enve = dict(envd)
-        for p in blockp:
-            envd[p] = bt
-        enve[es["block"]] = bt
-        enve[es["table"]] = ()
-        try:
-            d = bool(feval(dtest, envd))
-            e = bool(feval(es["test"], enve))
-        except (FevalError, KeyError, TypeError, AttributeError) as ex:
-            if bt is None:
-                continue
-            raise AnalysisError(f"seed guards not evaluable: {ex}")
-        if d != e:
-            diffs.append(f"block={bt and dict(bt)}: decoder seeds={d}, encoder seeds={e}")
-    rep.add("R09.2", "docstring seed guards agree", not diffs, loc(g.module, st),
-            "; ".join(diffs) if diffs else f"decoder guard {norm_src(dtest)} == encoder guard {norm_src(es['test'])} on every block type")
-    # varnames seeds: the decoder pre-marks as many leading slots as the encoder pre-assigns (same multiset of Args fields)
-    from . import c04
-    dec_fields = enc_fields = None
-    dec_where = loc(f.module, f.node)
-    for g2 in an.closure("from_code"):
-        for n in ast.walk(g2.node):
-            if isinstance(n, ast.DictComp) and isinstance(n.key, ast.Name) and isinstance(n.value, ast.Name) and n.key.id == n.value.id:
-                itx = n.generators[0].iter
-                if isinstance(itx, ast.Call) and isinstance(itx.func, ast.Name) and itx.func.id == "range" and len(itx.args) == 1 \
-                        and isinstance(itx.args[0], ast.Call) and isinstance(itx.args[0].func, ast.Name) and itx.args[0].func.id == "len":
-                    src = itx.args[0].args[0]
-                    base = None
-                    for a in ast.walk(src):
-                        if isinstance(a, ast.Name) and a.id in g2.params:
-                            base = a
-                    if base is not None:
-                        dec_fields = sorted(fl for fl, k, o in c04.segments(an, g2, src, base.id))
-                        dec_where = loc(g2.module, n)
-    for g2 in an.closure("to_code"):
-        for n in ast.walk(g2.node):
-            if isinstance(n, ast.For) and isinstance(n.iter, ast.Call) and isinstance(n.iter.func, ast.Name) and n.iter.func.id == "enumerate" \
-                    and len(n.body) == 1 and isinstance(n.body[0], ast.Assign) and isinstance(n.body[0].targets[0], ast.Subscript):
-                src = n.iter.args[0]
-                base = None
-                for a in ast.walk(src):
-                    if isinstance(a, ast.Attribute) and a.attr == "args":
-                        base = a
-                if base is not None:
-                    enc_fields = sorted(c04._order_from_args_expr(an, g2, src, base))
-    if dec_fields is None or enc_fields is None:
-        raise AnalysisError("parameter seeding sites not recognised on both sides")
-    rep.add("R09.2", "parameter seeds cover the same slots on both sides", dec_fields == enc_fields, dec_where,
-            f"decoder pre-marks len({dec_fields}) leading local slots, the encoder pre-assigns exactly those" if dec_fields == enc_fields
-            else f"decoder pre-marks the slots of {dec_fields}, encoder pre-assigns {enc_fields}")
+    rep.run(seed_rules, an, rep)
 
     rep.run(duplicates_key_rule, an, rep, f, mapattr)
 
